@@ -73,7 +73,7 @@ class Body:
     def ser(self):
         d = b""
         for e in self.entries:
-            d += bytes([e.elen & 0xFF]) + self.entry_body(e) + e.emac
+            d += bytes([e.elen & 0xFF]) + self.entry_body(e) + e.emac + getattr(e, "stray", b"")
         d += self.sentinel
         return (self.dirsize % 2**32).to_bytes(4, "big") + d + b"".join(e.payload for e in self.entries) + self.trailing
 
